@@ -20,7 +20,9 @@ def build(case):
         return np.array([y[1], -y[0]], dtype=y.dtype)
     # 'against': the system is configured with the mirrored span and the run direction is chosen by integrate(t) alone
     tf_cfg = (2 * t0 - tf) if case.get("against") else tf
-    a = de.OdeSystem(f, y0=y0, t=(dtype(t0), dtype(tf_cfg)), dt=dtype(case["dt0"]), rtol=dtype(1e-6), atol=dtype(1e-6), dense_output=bool(case["dense"]))
+    buf = y0.copy()         # the caller reuses its buffer after construction
+    a = de.OdeSystem(f, y0=buf, t=(dtype(t0), dtype(tf_cfg)), dt=dtype(case["dt0"]), rtol=dtype(1e-6), atol=dtype(1e-6), dense_output=bool(case["dense"]))
+    buf[...] = dtype(77.0)
     a.method = lc.by_name(case["method"])
     b = driver.Budget(20000)
     if case["hist"] == "none":
